@@ -649,7 +649,7 @@ fn main() {
         }
         let ts = ts.clone().unwrap_or_default();
         let Some(st) = ts.find("type QResult = ") else {
-            fail("no QResult type in the declaration file".into(), String::new(), ts.chars().take(300).collect());
+            fail("harness: no QResult type in the declaration file".into(), String::new(), ts.chars().take(300).collect());
             continue;
         };
         let body = &ts[st + "type QResult = ".len()..];
@@ -659,7 +659,7 @@ fn main() {
         let ty = match p.union() {
             Ok(t) => t,
             Err(e) => {
-                fail("the result type is outside the TypeScript subset this reader understands".into(), e, text.chars().take(600).collect());
+                fail("harness: the result type is outside the TypeScript subset this reader understands".into(), e, text.chars().take(600).collect());
                 continue;
             }
         };
